@@ -95,6 +95,35 @@ func instrAccesses(recv string, atomicField map[string]bool, st ast.Stmt) []stri
 	return out
 }
 
+// instrLockCall: the statement is `<recv>.<field>.<Lock|RLock|Unlock|RUnlock>()`: which one ("" = none).
+func instrLockCall(recv string, st ast.Stmt) string {
+	es, ok := st.(*ast.ExprStmt)
+	if !ok {
+		return ""
+	}
+	c, ok := es.X.(*ast.CallExpr)
+	if !ok || len(c.Args) != 0 {
+		return ""
+	}
+	se, ok := c.Fun.(*ast.SelectorExpr)
+	if !ok {
+		return ""
+	}
+	switch se.Sel.Name {
+	case "Lock", "RLock", "Unlock", "RUnlock":
+	default:
+		return ""
+	}
+	inner, ok := se.X.(*ast.SelectorExpr)
+	if !ok {
+		return ""
+	}
+	if id, ok := inner.X.(*ast.Ident); !ok || id.Name != recv {
+		return ""
+	}
+	return se.Sel.Name
+}
+
 type instrIns struct {
 	off  int
 	text string
@@ -182,9 +211,10 @@ func instrumentFile(path string) (string, error) {
 		if fd.Name.Name != "Next" && fd.Name.Name != "Left" {
 			continue
 		}
-		if instrHasLock(fd.Body) {
-			continue
-		}
+		// a method that takes locks (compositeSchedule): scheduling points only where it holds none — right before each
+		// `<recv>.<mutex>.Lock()` / `.RLock()` statement (label access `<Method>.Lock` / `<Method>.RLock`): the caller is
+		// parked between its critical sections, never inside one
+		lockMode := instrHasLock(fd.Body)
 		recv := fd.Recv.List[0].Names[0].Name
 		rt := "?"
 		switch t := fd.Recv.List[0].Type.(type) {
@@ -200,7 +230,13 @@ func instrumentFile(path string) (string, error) {
 		var nested func(st ast.Stmt)
 		walk = func(list []ast.Stmt) {
 			for _, st := range list {
-				if _, isDecl := st.(*ast.DeclStmt); !isDecl {
+				if lockMode {
+					if ln := instrLockCall(recv, st); ln == "Lock" || ln == "RLock" {
+						label := fmt.Sprintf("%s.%s#%d|%s.%s", rt, fd.Name.Name, k, fd.Name.Name, ln)
+						k++
+						ins = append(ins, instrIns{fset.Position(st.Pos()).Offset, fmt.Sprintf("verifhook.At(%q); ", label)})
+					}
+				} else if _, isDecl := st.(*ast.DeclStmt); !isDecl {
 					label := fmt.Sprintf("%s.%s#%d|%s", rt, fd.Name.Name, k, strings.Join(instrAccesses(recv, atomics[rt], st), ","))
 					k++
 					ins = append(ins, instrIns{fset.Position(st.Pos()).Offset, fmt.Sprintf("verifhook.At(%q); ", label)})
@@ -224,6 +260,9 @@ func instrumentFile(path string) (string, error) {
 				// jumps past this point — the rounds it ends are then covered by the points inside the body only)
 				var again []string
 				for _, n := range []ast.Node{s.Cond, s.Post} {
+					if lockMode {
+						break
+					}
 					if n == nil {
 						continue
 					}
